@@ -3,6 +3,7 @@ package http2
 import (
 	"bytes"
 	"errors"
+	"math"
 	"strconv"
 )
 
@@ -56,6 +57,12 @@ func parseUint(b []byte) (int, error) {
 	n := 0
 	for _, c := range b {
 		if c < '0' || c > '9' {
+			return 0, errInvalidUint
+		}
+
+		// A value that does not fit wraps around, and a content-length that
+		// wraps can come out equal to the real body size.
+		if n > (math.MaxInt-9)/10 {
 			return 0, errInvalidUint
 		}
 
